@@ -201,7 +201,14 @@ def main():
     "not_applicable": na,
     "notes": "Technique family: deterministic simulation with fault "
              "injection. Exit codes: 0 pass, 1 VIOLATION, 2 HARNESS-ERROR "
-             "(machinery fault, never a violation). See DESIGN.md.",
+             "(machinery fault, never a violation). Known findings "
+             "(genuine defects recorded, not repaired) are listed in "
+             "/verif/known_findings.json with status=known: the C17 check "
+             "prints one KNOWN-FINDING line on the unchanged tree "
+             "(close(wait=True) never returns for a player the history left "
+             "paused) and exits 0; entries with status=fixed (17 repairs "
+             "committed to /repo as fix: commits) suppress nothing. See "
+             "DESIGN.md (9.3, 9.12-9.20).",
   }
   path = os.path.join(HERE, "MANIFEST.json")
   with open(path, "w") as f:
